@@ -78,6 +78,14 @@ def cases(sh, tier):
                     continue
                 for keep in (False, True):
                     yield {"a": s, "op": "diff", "axis": ax, "ak": ak, "p": p, "n": n, "scheme": scheme, "keepaxis": keep}
+    if kind == "i" and nd <= 2 and sh["size"] >= 2:
+        # 32-bit integer labels of large magnitude (seconds since the epoch, YYYYMMDDhh): the sum of two neighbours does not fit the label type
+        big = dict(s, labels=[[2000000000 + 7 * l for l in lab] if i == p else lab for i, lab in enumerate(s["labels"])],
+                   ldt=["int32" if i == p else None for i in range(nd)])
+        big.pop("var", None)
+        for n in (1, 2):
+            for scheme in ("backward", "centered"):
+                yield {"a": big, "op": "diff", "axis": NAMES[p], "ak": "name", "p": p, "n": n, "scheme": scheme, "keepaxis": False}
     # arg-extrema: variants with ties and NaNs
     n = int(np.prod(D.shape_of(s)))
     variants = [("plain", s)]
